@@ -106,7 +106,7 @@ KINDS = {
 
 def render_thread(i, row):
     ty = KINDS[row["kind"]].replace("{T}", TYPES[row["t"]])
-    f = "assert_send" if row["check"] == "Send" else "assert_sync"
+    f = {"Send": "assert_send", "Sync": "assert_sync", "Clone": "assert_clone"}[row["check"]]
     return [f"pub fn thr_{i}() {{", f"    {f}::<{ty}>();", "}"]
 
 
@@ -120,7 +120,7 @@ def compile_batch(tag, fns):
     open(os.path.join(d, "Cargo.toml"), "w").write(
         '[package]\nname = "progs"\nversion = "0.1.0"\nedition = "2021"\n[workspace]\n[dependencies]\nprefix-trie = { path = "%s", default-features = false }\n' % vlib.REPO)
     open(os.path.join(d, ".cargo", "config.toml"), "w").write('[net]\noffline = true\n[build]\ntarget-dir = "%s"\n' % os.path.join(vlib.WORK, "progs_target"))
-    src = [HEADER, "fn assert_send<T: Send>() {}", "fn assert_sync<T: Sync>() {}"]
+    src = [HEADER, "fn assert_send<T: Send>() {}", "fn assert_sync<T: Sync>() {}", "fn assert_clone<T: Clone>() {}"]
     spans = []
     line = sum(s.count("\n") + 1 for s in src) - HEADER.count("\n") + HEADER.count("\n")
     text = "\n".join(src) + "\n"
